@@ -162,7 +162,7 @@ def _prof_layout(g, n):
             b = max(g.pick([size - 1, size, size, size, size + 1]), 0)
             inside = g.r.randint(0, max(size - 1, 0))
             shape = g.pick(["bare_bool", "bare_bool", "bool_range", "uint_1", "uint_cross", "empty", "rev_bool", "rev_bool",
-                            "rev_uint", "bool_wide", "bool_conv", "nested_later", "nested_earlier", "very_wide", "oob_overlap", "oob_overlap"])
+                            "rev_uint", "bool_wide", "bool_wide", "bool_wide", "bool_conv", "nested_later", "nested_earlier", "very_wide", "oob_overlap", "oob_overlap"])
             force_overlap = False
             if shape == "oob_overlap" and size >= 2:
                 # bit overlap is allowed on the object: fields may overlap, but each must still end inside the size -
@@ -197,7 +197,8 @@ def _prof_layout(g, n):
                 lo = g.r.randint(0, inside)
                 fields = [{"name": nm, "base": "bool" if shape == "rev_bool" else "uint", "start": inside, "end": g.pick([lo, max(inside - 1, 0), 0])}]
             elif shape == "bool_wide":
-                fields = [{"name": nm, "base": "bool", "start": 0, "end": min(size, g.pick([2, 3, 8]))}]
+                b0 = g.r.randint(0, max(size - 2, 0))
+                fields = [{"name": nm, "base": "bool", "start": b0, "end": min(size, b0 + g.pick([2, 2, 3, 8]))}]
             elif shape == "bool_conv":
                 fields = [{"name": nm, "base": "bool", "start": inside, "conversion": {"type": "conv::Ty", "try": g.chance(0.5)}}]
             elif shape in ("nested_later", "nested_earlier") and size >= 4:
@@ -277,7 +278,14 @@ def _prof_layout(g, n):
             o["allow_bit_overlap"] = True
         if g.chance(0.3):
             o["bit_order"] = g.pick(["LSB0", "MSB0"])
-        out.append(case({"config": cfg, "objects": [o]}, pick_syntax(g, (4, 4, 1, 1)), "layout"))
+        adef = {"config": cfg, "objects": [o]}
+        # how it is written down: inclusive DSL ranges, radix, item order (invisible to the model)
+        if g.chance(0.5):
+            adef["spell"] = "alt"
+        adef["num_style"] = g.pick(["dec", "dec", "hex", "mixed"])
+        if g.chance(0.3):
+            adef["item_order"] = "rev"
+        out.append(case(adef, pick_syntax(g, (4, 4, 1, 1)), "layout"))
     return out
 
 
@@ -550,6 +558,16 @@ def vary_order_source(g, c):
     return c
 
 
+def syntax_for_uint(g, v):
+    """A syntax that can write the unsigned integer v: TOML integers are i64, JSON numbers are read as u64, YAML
+    carries a u64 as a `0b…` string (the renderer writes 2^63..2^64-1 that way), the DSL reads a u128."""
+    if v >= 2 ** 64:
+        return "dsl"
+    if v >= 2 ** 63:
+        return g.pick(["dsl", "json", "json", "yaml"])
+    return pick_syntax(g, (4, 4, 1, 1))
+
+
 def prof_reset(g, tier):
     out = [vary_order_source(g, c) for c in _prof_reset(g, tier)]
     for c in out:
@@ -568,10 +586,16 @@ def _prof_reset(g, tier):
                 for form in ("int", "array", None):
                     regs, addr = [], 0
                     g.reset_names()
+                    # integers: the syntax is drawn first and bounds what can be written (DSL u128, JSON u64, YAML u64 as
+                    # a `0b…` string, TOML i64)
+                    want = pick_syntax(g, (3, 3, 2, 1))
+                    limit = {"dsl": 128, "json": 64, "yaml": 64, "toml": 63}[want] if form == "int" else 128
                     for size in sizes:
-                        if form == "int" and size > 63 and g.chance(0.5):
-                            continue  # YAML / TOML integers are i64, JSON u64; only the DSL carries wider ones
+                        if size > limit:
+                            continue
                         v = good_reset(g, size, bo, bito, form) if form else None
+                        if form == "int" and size == 64 and g.chance(0.7):
+                            v |= 1 << 63          # the top bit of a u64: beyond i64, which YAML / TOML integers are
                         regs.append(reset_register(g, "R%d" % size, addr, size, bo, bito, form, v))
                         addr += 1
                     # some refs with / without their own reset
@@ -591,9 +615,10 @@ def _prof_reset(g, tier):
                                 ov["reset"] = json.loads(json.dumps(tgt["reset"]))
                         regs.append({"kind": "ref", "name": "Alias%d" % i, "target": tgt["name"], "override": ov})
                     cfg = {"register_address_type": "u16"}
-                    big_int = any("reset" in r and "int" in r.get("reset", {}) and int(r["reset"]["int"]) >= 2 ** 63 for r in regs)
-                    big_int = big_int or any(r["kind"] == "ref" and "int" in r["override"].get("reset", {}) and int(r["override"]["reset"]["int"]) >= 2 ** 63 for r in regs)
-                    syn = "dsl" if big_int else pick_syntax(g)
+                    ints = [int(r["reset"]["int"]) for r in regs if "int" in (r.get("reset") or {})]
+                    ints += [int(r["override"]["reset"]["int"]) for r in regs if r["kind"] == "ref" and "int" in (r["override"].get("reset") or {})]
+                    mx = max(ints + [0])
+                    syn = want if mx < 2 ** {"dsl": 128, "json": 64, "yaml": 64, "toml": 63}[want] else syntax_for_uint(g, mx)
                     out.append(case({"config": cfg, "objects": regs}, syn, "reset_ok"))
     # rejected / boundary: one register per device
     for size in sizes:
@@ -608,7 +633,7 @@ def _prof_reset(g, tier):
                     for k in highs:
                         good = good_reset(g, size, bo, bito, form)
                         bad = flip_high_bit(g, size, bo, bito, form, good, k)
-                        syn = "dsl" if (form == "int" and bad >= 2 ** 63) else pick_syntax(g, (4, 4, 1, 1))
+                        syn = syntax_for_uint(g, bad if form == "int" else 0)
                         out.append(case({"config": {"register_address_type": "u8"},
                                          "objects": [reset_register(g, "R", 1, size, bo, bito, form, bad)]}, syn, "reset_bad_bit"))
                     if form == "array" and (thorough or g.chance(0.5)):
@@ -1121,7 +1146,11 @@ def prof_names(g, n):
         elif defect == "dup_enum" and len(regs) >= 1:
             r1 = g.pick(regs)
             r2 = g.pick(regs)
-            e = lambda nm: {"enum": {"name": nm, "variants": [{"name": "A", "value": None}, {"name": "B", "value": "default"}]}, "try": False}
+            # fallible (`try`) and infallible enums alike, with and without a fallback variant
+            def e(nm):
+                t = g.chance(0.5)
+                vs = [{"name": "A", "value": None}, {"name": "B", "value": "default" if (not t or g.chance(0.4)) else None}]
+                return {"enum": {"name": nm, "variants": vs}, "try": t}
             r1["fields"] = [{"name": "fa", "base": "uint", "start": 0, "end": 2, "conversion": e("my_enum")}]
             if r2 is r1:
                 r1["fields"].append({"name": "fb", "base": "uint", "start": 2, "end": 4, "conversion": e("MyEnum")})
@@ -1129,8 +1158,9 @@ def prof_names(g, n):
                 r2["fields"] = [{"name": "fb", "base": "uint", "start": 2, "end": 4, "conversion": e("MyEnum")}]
         elif defect == "dup_variant" and regs:
             r = g.pick(regs)
+            t = g.chance(0.5)
             r["fields"] = [{"name": "fa", "base": "uint", "start": 0, "end": 2, "conversion": {"enum": {"name": "En", "variants": [
-                {"name": "my_var", "value": None}, {"name": "MyVar", "value": None}, {"name": "Z", "value": "default"}]}, "try": False}}]
+                {"name": "my_var", "value": None}, {"name": "MyVar", "value": None}] + ([{"name": "Z", "value": "default"}] if (not t or g.chance(0.4)) else [])}, "try": t}}]
         elif defect in ("good_ref", "good_ref_spelling", "ref_missing", "ref_kind", "ref_buffer", "ref_ref", "ref_layout"):
             cand = regs + cmds + blocks
             if cand:
